@@ -73,11 +73,13 @@ def run(chk, repo, tier):
     chk.depends_on += ["C08"]
     w = World(repo)
     pairs = [(repo.cls(a), repo.cls(b)) for a, b in PAIRS]
-    if tier == "thorough":
-        syn = synthetic_classes(repo)
-        ref = [c for c in syn if "_ref_" in c.name]
-        opt = [c for c in syn if "_opt_" in c.name]
-        pairs += list(zip(ref, opt))
+    syn = synthetic_classes(repo)
+    if tier != "thorough":
+        # quick tier: one dense quadratic modulus (linear term present), which the two sparse real moduli never exercise
+        syn = [c for c in syn if "FQ2_dense_4b" in c.name]
+    ref = [c for c in syn if "_ref_" in c.name]
+    opt = [c for c in syn if "_opt_" in c.name]
+    pairs += list(zip(ref, opt))
     for rc, oc in pairs:
         Sr, So = FieldSubject(w, rc), FieldSubject(w, oc)
         if Sr.p != So.p or Sr.kind != So.kind:
@@ -92,6 +94,10 @@ def run(chk, repo, tier):
             ok = dr[k][0] and do[k][0]
             side = "" if ok else ("optimized: " + do[k][1] if not do[k][0] else "reference: " + dr[k][1])
             chk.ob("C14.R1", f"{oc.qualname} vs {rc.name}", k, ok, side, do[k][2])
+    sgn0_obligations(chk, repo, w)
+
+
+def sgn0_obligations(chk, repo, w):
     # ---- sgn0
     for q, deg in (("py_ecc.fields.optimized_bls12_381_FQ", None), ("py_ecc.fields.optimized_bn128_FQ", None),
                    ("py_ecc.fields.optimized_bls12_381_FQ2", 2), ("py_ecc.fields.optimized_bn128_FQ2", 2),
